@@ -115,6 +115,10 @@ var localDecls34 = map[string]string{
 	"LI": `access(all) struct interface LI { access(all) fun f(_ x: Int): Int { pre { x >= 0: "neg" } post { result > x: "not greater" } } access(all) fun g(): String { return "LI.g" } }
 access(all) struct LA: LI { access(all) fun f(_ x: Int): Int { return x + 1 } }
 access(all) struct LB: LI { access(all) fun f(_ x: Int): Int { return x } access(all) fun g(): String { return "LB.g" } }`,
+	"LM": `access(all) struct interface P1 { access(all) fun h(_ x: Int): Int { pre { x > 0: "p1" } } }
+access(all) struct interface P2 { access(all) fun h(_ x: Int): Int { pre { x < 10: "p2" } post { result != 5: "p2post" } } }
+access(all) struct interface P3: P1 { access(all) fun h(_ x: Int): Int { pre { x != 7: "p3" } post { result != 6: "p3post" } } }
+access(all) struct LM: P2, P3 { access(all) fun h(_ x: Int): Int { pre { x != 3: "own" } return x } }`,
 	"LE": `access(all) enum LE: Int8 { access(all) case lo; access(all) case mid; access(all) case hi }`,
 	"LF": `access(all) fun fib(_ n: Int): Int { if n < 2 { return n }; return fib(n - 1) + fib(n - 2) }
 access(all) fun apply(_ f: fun(Int): Int, _ x: Int): Int { return f(f(x)) }
@@ -217,6 +221,13 @@ func snippets34() []snippet {
 		S("interfaces", "inherited-conditions", "", `let $q = K.Sq(2); out.append($q.scaled(99)); out.append($q.scaled(100))`),
 		S("interfaces", "inherited-conditions-2", "", `let $q = K.Sq(2); out.append($q.scaled(1)); out.append($q.scaled(0))`),
 		S("interfaces", "resource-conditions", "", `let $v <- K.mkVault(10); let $r = &$v as auth(K.E) &K.Vault; let $w <- $r.withdraw(4); out.append([$v.balance, $w.balance]); $v.deposit(<- $w); out.append($v.balance); let $z <- $r.withdraw(11); destroy $z; destroy $v`),
+		S("interfaces", "multi-cond-ok", "LM", `let $m = LM(); out.append($m.h(2)); out.append($m.h(1)); let $i: {P3} = $m; out.append($i.h(4))`),
+		S("interfaces", "multi-cond-p1", "LM", `let $m = LM(); out.append($m.h(2)); out.append($m.h(0)); let $i: {P3} = $m; out.append($i.h(4))`),
+		S("interfaces", "multi-cond-p2", "LM", `let $m = LM(); out.append($m.h(2)); out.append($m.h(10)); let $i: {P3} = $m; out.append($i.h(4))`),
+		S("interfaces", "multi-cond-p3", "LM", `let $m = LM(); out.append($m.h(2)); out.append($m.h(7)); let $i: {P3} = $m; out.append($i.h(4))`),
+		S("interfaces", "multi-cond-own", "LM", `let $m = LM(); out.append($m.h(2)); out.append($m.h(3)); let $i: {P3} = $m; out.append($i.h(4))`),
+		S("interfaces", "multi-cond-p2post", "LM", `let $m = LM(); out.append($m.h(2)); out.append($m.h(5)); let $i: {P3} = $m; out.append($i.h(4))`),
+		S("interfaces", "multi-cond-p3post", "LM", `let $m = LM(); out.append($m.h(2)); out.append($m.h(6)); let $i: {P3} = $m; out.append($i.h(4))`),
 		// references
 		S("references", "ref-basic", "LS", `var $s = LS(1); let $r = &$s as &LS; $s.setA(5); out.append($r.a); out.append($r.b); let $a = [1, 2, 3]; let $ra = &$a as auth(Mutate) &[Int]; $ra.append(4); out.append($a); out.append($ra[0]); let $x = 5; let $rx = &$x as &Int; out.append(*$rx + 1)`),
 		S("references", "ref-auth", "", `let $v <- K.mkVault(3); let $u = &$v as &K.Vault; out.append($u.balance); let $e = &$v as auth(K.E) &K.Vault; let $down = $e as &K.Vault; out.append($down.balance); let $any: &AnyResource = $e; out.append(($any as? auth(K.E) &K.Vault) != nil); out.append(($u as? auth(K.E) &K.Vault) == nil); out.append($e.getType()); destroy $v`),
